@@ -760,6 +760,11 @@ var nilCheckedIfaces = map[string][]string{
 	"context.Context": {"C09"},
 	"Entry":           {"C13"},
 	"error":           {"C13"},
+	// the optional collaborators of the configuration: nil unless the caller supplied one
+	"Logger":            {"C13"},
+	"Metrics":           {"C13"},
+	"HealthChecker":     {"C13"},
+	"ConnectionMonitor": {"C13", "C11"},
 }
 
 func (u *Unit) invoke(fr *Frame, st *State, cc *ssa.CallCommon, recv Val, args []Val, where string) Val {
